@@ -110,47 +110,84 @@ theorem le_simdRound (simd count : Nat) : count ≤ simdRound simd count := by
     rw [Nat.mul_comm] at h1
     omega
 
-/-- One clause of the feature walk does not depend on the stale scratch, given the two
-    hypotheses (lanes below `count_simd`; sqrt output row replicated in both scratches). -/
-theorem featClauseRaw_congr (O : DOps α) (F : FeatOracle α) (cv : Bool) (N simd : Nat)
-    (S S' : FeatScratch α) (c : Clause) (v : Nat → α) (f f' : Nat → List (Feat α))
-    (hcs : S.countSimd = S'.countSimd) (hfa : f c.a = f' c.a) (hfb : f c.b = f' c.b)
-    (hcnt : c.op ≠ Op.min → c.op ≠ Op.max → c.op.args = some 2 →
-      ∀ i, i < (pairs (f c.a) (f c.b)).length → i % N < S.countSimd)
-    (hsq : c.op = Op.sqrt → ∀ lane, S.staleV c.id lane = v c.id ∧ S'.staleV c.id lane = v c.id) :
-    featClauseRaw O F cv N simd S c v f = featClauseRaw O F cv N simd S' c v f' := by
-  unfold featClauseRaw
-  simp only [← hfa, ← hfb, ← hcs]
-  by_cases hmin : c.op = Op.min
-  · simp only [hmin, if_true]
-  · by_cases hmax : c.op = Op.max
-    · simp only [hmin, hmax, if_true, if_false]
-    · simp only [hmin, hmax, if_false]
-      by_cases ha1 : c.op.args = some 1
-      · simp only [ha1, if_true]
-        unfold featUnary
-        simp only [← hcs]
-        congr 1
-        apply List.map_congr_left
-        intro ⟨i, f0⟩ _
-        simp only
-        by_cases hs : c.op = Op.sqrt
-        · obtain ⟨e1, e2⟩ := hsq hs (i % N)
-          simp only [e1, e2]
-        · congr 1
-          exact FeatureProofs.dk3_ov O cv c.op hs _ _ _ _ _ _
-      · by_cases ha2 : c.op.args = some 2
-        · simp only [ha1, if_false]
-          simp only [ha2, if_true]
-          congr 1
-          unfold featBinary
-          apply List.map_congr_left
-          intro ⟨i, ⟨f0, g0⟩⟩ hmem
-          have hi := (List.of_mem_zip hmem).1
-          have hlane := hcnt hmin hmax ha2 i (by simpa using hi)
-          have hlane' : i % N < S'.countSimd := hcs ▸ hlane
-          simp only [hlane, hlane', if_true]
-        · simp only [ha1, if_false]
-          simp only [ha2, if_false]
+theorem featList_notin (O : DOps α) (F : FeatOracle α) (dedup : List (Feat α) → List (Feat α))
+    (cv : Bool) (N simd : Nat) (v : Nat → α) (T : List Clause) (st : FeatState α) (k : Nat)
+    (h : k ∉ ids T) : (featList O F dedup cv N simd v T st).f k = st.f k := by
+  induction T with
+  | nil => rfl
+  | cons c rest ih =>
+    have h1 : k ≠ c.id := fun e => h (by simp [ids, e])
+    have h2 : k ∉ ids rest := fun e => h (by simp only [ids, List.map_cons, List.mem_cons]; exact Or.inr e)
+    simp only [featList, upd_other _ _ _ _ h1, ih h2]
+
+/-! ### `Tape::push` only looks at the keep function on the clauses of the tape -/
+
+theorem pushStep_congr (keep keep' : Clause → Keep) (S : PushState) (c : Clause) (h : keep c = keep' c) :
+    pushStep keep S c = pushStep keep' S c := by
+  unfold pushStep
+  rw [h]
+
+theorem pushPass1_congr (keep keep' : Clause → Keep) :
+    ∀ (t : List Clause) (S : PushState), (∀ c ∈ t, keep c = keep' c) →
+      pushPass1 keep t S = pushPass1 keep' t S := by
+  intro t
+  induction t with
+  | nil => intro _ _; rfl
+  | cons c rest ih =>
+    intro S h
+    simp only [pushPass1, List.foldl_cons]
+    rw [pushStep_congr keep keep' S c (h c (List.mem_cons_self ..))]
+    exact ih _ (fun d hd => h d (List.mem_cons_of_mem _ hd))
+
+theorem pushChanged_congr (keep keep' : Clause → Keep) :
+    ∀ (t : List Clause) (S : PushState), (∀ c ∈ t, keep c = keep' c) →
+      pushChanged keep t S = pushChanged keep' t S := by
+  intro t
+  induction t with
+  | nil => intro _ _; rfl
+  | cons c rest ih =>
+    intro S h
+    have hc := h c (List.mem_cons_self ..)
+    simp only [pushChanged, hc, pushStep_congr keep keep' S c hc,
+      ih _ (fun d hd => h d (List.mem_cons_of_mem _ hd))]
+
+theorem pushTerminal_congr (keep keep' : Clause → Keep) :
+    ∀ (t : List Clause) (S : PushState), (∀ c ∈ t, keep c = keep' c) →
+      pushTerminal keep t S = pushTerminal keep' t S := by
+  intro t
+  induction t with
+  | nil => intro _ _; rfl
+  | cons c rest ih =>
+    intro S h
+    have hc := h c (List.mem_cons_self ..)
+    simp only [pushTerminal, hc, pushStep_congr keep keep' S c hc,
+      ih _ (fun d hd => h d (List.mem_cons_of_mem _ hd))]
+
+theorem push_congr (T : TapeM) (keep keep' : Clause → Keep) (h : ∀ c ∈ T.t, keep c = keep' c) :
+    T.push keep = T.push keep' := by
+  unfold TapeM.push
+  simp only [pushChanged_congr keep keep' T.t _ h, pushPass1_congr keep keep' T.t _ h,
+    pushTerminal_congr keep keep' T.t _ h]
+
+theorem emit_ids (S : PushState) (fuel : Nat) (t : List Clause) :
+    ∀ k, k ∈ ids (emit S fuel t) → k ∈ ids t := by
+  intro k hk
+  simp only [ids, emit, List.mem_map, List.mem_filterMap] at hk ⊢
+  obtain ⟨c', ⟨c, hc, hg⟩, rfl⟩ := hk
+  refine ⟨c, hc, ?_⟩
+  split at hg
+  · cases hg
+  · split at hg <;> (cases hg; rfl)
+
+theorem push_ids (T : TapeM) (keep : Clause → Keep) : ∀ k, k ∈ ids (T.push keep).t → k ∈ ids T.t := by
+  intro k hk
+  unfold TapeM.push at hk
+  by_cases ht : T.terminal = true
+  · simpa [ht] using hk
+  · simp only [ht, Bool.false_eq_true, if_false] at hk
+    by_cases hc : pushChanged keep T.t (PushState.init T.root) = true
+    · simp only [hc, Bool.not_true, Bool.false_eq_true, if_false] at hk
+      exact emit_ids _ _ _ k hk
+    · simpa [hc] using hk
 
 end Libfive.EvalStateProofs
